@@ -178,12 +178,20 @@ def run(tier, seed):
         if rc == -9 or rc < 0:
             chk.report("link:%s:died" % variant, "naken_asm died (%s) on\n%s" % (rc, src), dict(source=src, scenario=sc, rc=rc, out=txt))
             continue
-        syms = []
+        syms, claims = [], []
         if lst_t is not None:
-            syms = [dict(n=n, v=v) for n, v, s in lst.parse(lst_t)["syms"]]
+            L = lst.parse(lst_t)
+            syms = [dict(n=n, v=v) for n, v, s in L["syms"]]
+            for en in L["entries"]:
+                for a, groups in en["lines"]:
+                    bs = []
+                    for g in groups:
+                        b = bytes.fromhex(g)
+                        bs += list(b) if variant == "big" else list(b[::-1])
+                    claims.append(dict(a=a, b=bs))
         events.append(dict(id=cid, files=sc["files"], refs=sc["refs"], base=BASE, end=end, big=(variant == "big"),
                            badfile=(variant == "badfile"), own=own, rc=rc, out=hexb is not None,
-                           file=T.LEXERS["hex"](hexb) if hexb is not None else [], syms=syms))
+                           file=T.LEXERS["hex"](hexb) if hexb is not None else [], syms=syms, claims=claims))
 
     # canaries
     canaries = {}
@@ -191,7 +199,9 @@ def run(tier, seed):
     for i, e in enumerate(rnd.sample(good, min(12, len(good)))):
         c = json.loads(json.dumps(e))
         c["id"] = "canary." + e["id"]
-        if i % 3 == 0:
+        if i % 4 == 3 and c["claims"] and c["claims"][-1]["a"] >= c["end"]:
+            c["claims"][-1]["b"][0] ^= 1
+        elif i % 3 == 0:
             c["syms"][-1]["v"] += 4
         elif i % 3 == 1:
             recs = [x for x in c["file"] if x.get("typ") == 0]
